@@ -229,7 +229,6 @@ func RollDoubleCross(src *rand.PCGSource, addLine IntType, pool IntType, points 
 
 			if reachAddRound {
 				addCount += 1
-				maxDice = 10
 			}
 
 			if isShowDetails {
@@ -241,6 +240,10 @@ func RollDoubleCross(src *rand.PCGSource, addLine IntType, pool IntType, points 
 			}
 		}
 
+		if addCount > 0 {
+			// 暴击轮固定计10，不受该轮中大于10的骰子影响
+			maxDice = 10
+		}
 		resultDice += maxDice
 		allRollCount += addCount
 
